@@ -771,10 +771,12 @@ def input_masks(draw, spec, routes=('pnc',)):
     if draw(st.integers(0, 3)) != 0:
         spec['mask'] = None
         return None
-    mk = {'kind': draw(st.sampled_from(['build', 'lib'])),
-          'fill': draw(st.sampled_from([-999.0, None, 1e20, -1.0]))}
-    if mk['kind'] == 'lib' and mk['fill'] is None:
-        mk['fill'] = -999.0
+    kind = draw(st.sampled_from(['build', 'lib']))
+    # mask() applies its fill_value to every variable incl. the integer
+    # TFLAG, so only values that fit int32 are in its domain
+    mk = {'kind': kind,
+          'fill': draw(st.sampled_from([-999.0, 1e20, -1.0] if kind == 'build'
+                                       else [-999.0, -1.0]))}
     spec['mask'] = mk
     spec['payload'] = {'mode': 'ramp', 'seed': spec['payload']['seed'],
                        'over': []}
